@@ -50,7 +50,7 @@ class C06(Prop):
     anchors = ["aioswitcher.bridge:DatagramParser.is_switcher_originator", "aioswitcher.bridge:DatagramParser.get_device_type",
                "aioswitcher.bridge:_parse_device_from_datagram", "aioswitcher.bridge:UdpClientProtocol.datagram_received"]
     min_evaluations = {"quick": 5_000, "thorough": 150_000}
-    budget_s = {"quick": 60, "thorough": 900}
+    budget_s = {"quick": 300, "thorough": 900}
 
     def selftest(self):
         broadcast_captures()
